@@ -167,14 +167,17 @@ Theorem C05_rescale_keeps_laws : forall s p, valid p ->
 Proof. exact rescale_keeps_laws. Qed.
 Print Assumptions C05_rescale_keeps_laws.
 
-(* --- 11. objects hold nothing but their current (r, t): after ANY program of inverse / compose / rescale
-         steps on the same objects, inverting object i creates a new object equal to the inverse of what object i
-         holds now (no memory of earlier calls); inverse / compose never change an existing object; rescale
-         changes its target only.  MPose.CHistory checks the real objects against this store semantics. *)
-Theorem C05_history_inverse_current : forall st ops st1 i p st2,
-  hrun st ops = Some st1 -> nth_error st1 i = Some (lift p) -> valid p ->
+(* --- 11. objects hold nothing but their current (r, t), and results are fresh objects.  The store gives every
+         handle (initial pose or call result) its object identity and value.  After ANY program of inverse / compose /
+         rescale steps: inverting handle i creates a fresh object equal to the inverse of what i holds now (no memory
+         of earlier calls); inverse / compose never change an existing handle; compose of two or more poses creates a
+         fresh object whatever the operands (identity poses included) while compose([p]) is p itself (as the code
+         does); rescale changes exactly the handles of its target object; hence rescaling the result of inverse /
+         compose(>=2) leaves every operand as it was.  MPose.CHistory checks the real objects against this. *)
+Theorem C05_history_inverse_current : forall st ops st1 i c p st2,
+  hrun st ops = Some st1 -> nth_error st1 i = Some (c, lift p) -> valid p ->
   hstep st1 (HInverse i) = Some st2 ->
-  exists m, st2 = st1 ++ [m] /\ oeq m (lift (inverse_impl p)).
+  exists m, st2 = st1 ++ [(length st1, m)] /\ oeq m (lift (inverse_impl p)).
 Proof. exact history_inverse_current. Qed.
 Print Assumptions C05_history_inverse_current.
 
@@ -183,11 +186,28 @@ Theorem C05_history_objects_unchanged : forall st op st' j x, (forall i s, op <>
 Proof. exact hstep_keeps_objects. Qed.
 Print Assumptions C05_history_objects_unchanged.
 
+Theorem C05_compose_result_fresh : forall st ids st', (2 <= length ids)%nat -> hstep st (HCompose ids) = Some st' ->
+  exists es m, nths st ids = Some es /\ compose_api (map snd es) = Ok m /\ st' = st ++ [(length st, m)].
+Proof. exact hstep_compose_fresh. Qed.
+Print Assumptions C05_compose_result_fresh.
+
 Theorem C05_history_rescale_only_target : forall st i s st', hstep st (HRescale i s) = Some st' ->
-  exists p, nth_error st i = Some p /\ nth_error st' i = Some (rescale_api s p) /\
-            length st' = length st /\ forall j, j <> i -> nth_error st' j = nth_error st j.
+  exists c p, nth_error st i = Some (c, p) /\ length st' = length st /\
+    forall j cj pj, nth_error st j = Some (cj, pj) ->
+      nth_error st' j = Some (cj, if Nat.eqb cj c then rescale_api s pj else pj).
 Proof. exact hstep_rescale. Qed.
 Print Assumptions C05_history_rescale_only_target.
+
+Theorem C05_rescaling_a_result_keeps_operands : forall st op st1 s st2, wf_store st ->
+  (exists i, op = HInverse i) \/ (exists ids, op = HCompose ids /\ (2 <= length ids)%nat) ->
+  hstep st op = Some st1 -> hstep st1 (HRescale (length st) s) = Some st2 ->
+  forall k x, nth_error st k = Some x -> nth_error st2 k = Some x.
+Proof. exact rescale_result_keeps_operands. Qed.
+Print Assumptions C05_rescaling_a_result_keeps_operands.
+
+Theorem C05_store_wellformed : forall st op st', wf_store st -> hstep st op = Some st' -> wf_store st'.
+Proof. exact wf_store_hstep. Qed.
+Print Assumptions C05_store_wellformed.
 
 (* --- non-vacuity: concrete non-unit, non-commuting poses in the domain; every clause bites *)
 Definition ex_a : pose := mkP (mkQ 1 2 3 4) (mkV 1 0 (-2)).
@@ -207,13 +227,22 @@ Proof.
   - vm_compute. reflexivity.
 Qed.
 
-(* a history: invert, rescale the pose, invert again: the second inverse is NOT the first one *)
+(* histories: invert, rescale the pose, invert again: the second inverse is NOT the first one; composing with an
+   exact identity pose gives a fresh object, so rescaling the result leaves the operand alone — whereas the
+   one-element compose returns the operand itself (handle 4 is an alias of handle 0), as the code does *)
+Definition ex_id : opose := lift pid.
 Example C05_example_history :
-  match hrun [lift ex_a] [HInverse 0; HRescale 0 (5 # 2); HInverse 0] with
-  | Some [a; i1; i2] => opose_eqb a (lift (rescale (5 # 2) ex_a)) = true /\ opose_eqb i1 i2 = false
+  match hrun [(0%nat, lift ex_a)] [HInverse 0; HRescale 0 (5 # 2); HInverse 0] with
+  | Some [(_, a); (_, i1); (_, i2)] => opose_eqb a (lift (rescale (5 # 2) ex_a)) = true /\ opose_eqb i1 i2 = false
+  | _ => False
+  end /\
+  match hrun [(0%nat, lift ex_a); (1%nat, ex_id)] [HCompose [0%nat; 1%nat]; HCompose [1%nat; 0%nat; 1%nat]; HRescale 2 10; HCompose [0%nat]; HRescale 4 10] with
+  | Some [(0%nat, a); (1%nat, i); (2%nat, c1); (3%nat, c2); (0%nat, a')] =>
+      opose_eqb a (lift (rescale 10 ex_a)) = true /\ opose_eqb a a' = true /\
+      opose_eqb c1 (lift (rescale 10 ex_a)) = true /\ opose_eqb c2 (lift ex_a) = true
   | _ => False
   end.
-Proof. vm_compute. split; reflexivity. Qed.
+Proof. vm_compute. repeat split. Qed.
 
 (* outcomes outside the quantifier are modelled, not hidden *)
 Example C05_example_outside :
